@@ -43,8 +43,31 @@ class _Index:
         return -1
 
 
+def _py_int_ok(b):
+    try:
+        int(bytes(b))
+        return True
+    except ValueError:
+        return False
+
+
+def _elem(seq, i):
+    if not 0 <= i < len(seq):
+        raise IndexError(i)  # outside the guarded range the clause says nothing (-> Skip)
+    return seq[i]
+
+
 def native_env():
-    return {"rs_cover_map": lambda rs: _Cover(rs), "rs_index_map": lambda rs: _Index(rs)}
+    return {
+        "rs_cover_map": lambda rs: _Cover(rs),
+        "rs_index_map": lambda rs: _Index(rs),
+        # C15 (contracts/h3_headers.py): native meaning of the spec builtins / uninterpreted functions used there
+        "elem": _elem,
+        "py_int_ok": _py_int_ok,
+        "py_int_val": lambda b: int(bytes(b)),
+        "bkey": lambda b: bytes(b),
+        "has_key": lambda s, c: c in s,
+    }
 
 
 # ---------------------------------------------------------------- generators
@@ -378,6 +401,69 @@ def gen_header_value(rng, model, limit):
         yield None, (b"x-k", a[0]), {}
 
 
+_H3_NAMES = [b":method", b":scheme", b":authority", b":path", b":protocol", b":status", b":foo", b":", b"content-length", b"transfer-encoding",
+             b"x-a", b"te", b"", b"a:b", b"X", b"aZ", b"a b", b"\x7f", b"\x80a", b"a\xff", b"!", b"a\x00", b"z", b"\t", b"a~"]
+_H3_VALUES = [b"", b"GET", b"https", b"http", b"ftp", b"/", b"h", b" ", b"\t", b" a", b"a ", b"a\t", b"a\tb", b"a\x00", b"a\nb", b"\r", b"0", b"00", b"5", b"+5",
+              b"-1", b"-0", b"1_0", b"1__0", b"x", b"5x", b"trailers", b"gzip", b"200", b"\x80", b"\xff", b"!", b"\x0b5", b"\x7f"]
+_H3_BASE = {
+    "validate_request_headers": [(b":method", b"GET"), (b":scheme", b"https"), (b":authority", b"h"), (b":path", b"/")],
+    "validate_push_promise_headers": [(b":method", b"GET"), (b":scheme", b"https"), (b":authority", b"h"), (b":path", b"/")],
+    "validate_response_headers": [(b":status", b"200")],
+    "validate_trailers": [(b"x-a", b"1")],
+}
+
+
+def _h3_blocks(rng, kind):
+    """header lists: a well-formed block of the kind, then 0..3 edits (insert / duplicate / swap / delete / replace name or
+    value) over the boundary names and values; plus unstructured short lists"""
+    while True:
+        if rng.random() < 0.15:
+            h = [(rng.choice(_H3_NAMES), rng.choice(_H3_VALUES)) for _ in range(rng.randrange(0, 5))]
+        else:
+            h = list(_H3_BASE[kind])
+            if rng.random() < 0.5:
+                h.append((b"content-length", rng.choice([b"0", b"5", b"+5", b"-1", b"1_0", b"", b"x", b"00"])))
+            if rng.random() < 0.3:
+                h.append((rng.choice([b"x-a", b"te", b"transfer-encoding"]), rng.choice([b"1", b"trailers", b"gzip"])))
+            for _ in range(rng.randrange(0, 4)):
+                op = rng.randrange(6)
+                pos = rng.randrange(0, len(h) + 1)
+                if op == 0:
+                    h.insert(pos, (rng.choice(_H3_NAMES), rng.choice(_H3_VALUES)))
+                elif op == 1 and h:
+                    h.insert(pos, h[rng.randrange(len(h))])
+                elif op == 2 and len(h) > 1:
+                    i, j = rng.randrange(len(h)), rng.randrange(len(h))
+                    h[i], h[j] = h[j], h[i]
+                elif op == 3 and h:
+                    del h[rng.randrange(len(h))]
+                elif op == 4 and h:
+                    i = rng.randrange(len(h))
+                    h[i] = (rng.choice(_H3_NAMES), h[i][1])
+                elif op == 5 and h:
+                    i = rng.randrange(len(h))
+                    h[i] = (h[i][0], rng.choice(_H3_VALUES))
+        yield h
+
+
+def _gen_h3_block(kind, with_stream):
+    def gen(rng, model, limit):
+        from aioquic.h3.connection import H3Stream
+
+        for h in _h3_blocks(rng, kind):
+            if not with_stream:
+                yield None, (h,), {}
+            elif rng.random() < 0.2:
+                yield None, (h, None), {}
+            else:
+                st = H3Stream(0)
+                st.expected_content_length = rng.choice([None, None, 0, 5, 7])
+                st.content_length = rng.choice([0, 5])
+                yield None, (h, st), {}
+
+    return gen
+
+
 def _receivers(rng):
     from aioquic.quic.packet import QuicStreamFrame
     from aioquic.quic.stream import FinalSizeError, QuicStreamReceiver
@@ -492,6 +578,10 @@ GENS.update(
         "buffer.py::size_uint_var": gen_size_uint_var,
         "h3/connection.py::validate_header_name": gen_header_name,
         "h3/connection.py::validate_header_value": gen_header_value,
+        "h3/connection.py::validate_request_headers": _gen_h3_block("validate_request_headers", True),
+        "h3/connection.py::validate_response_headers": _gen_h3_block("validate_response_headers", True),
+        "h3/connection.py::validate_trailers": _gen_h3_block("validate_trailers", False),
+        "h3/connection.py::validate_push_promise_headers": _gen_h3_block("validate_push_promise_headers", False),
         "quic/stream.py::QuicStreamReceiver.handle_reset": gen_rx_reset,
         "quic/stream.py::QuicStreamReceiver.handle_frame": gen_rx_frame,
         "quic/stream.py::QuicStreamSender.get_frame": gen_tx_get_frame,
@@ -506,7 +596,7 @@ _XC = "cross-check of the proved contracts against CPython: the same clause stri
 for _name, _fns, _q, _t in (
     ("native-xcheck-stream", ["quic/stream.py::QuicStreamReceiver.handle_reset", "quic/stream.py::QuicStreamReceiver.handle_frame", "quic/stream.py::QuicStreamSender.get_frame", "quic/stream.py::QuicStreamSender.write"], 3000, 60000),
     ("native-xcheck-reno", ["quic/congestion/reno.py::RenoCongestionControl.on_packets_lost", "quic/congestion/reno.py::RenoCongestionControl.on_packet_acked", "quic/congestion/cubic.py::CubicCongestionControl.on_packets_lost"], 5000, 100000),
-    ("native-xcheck-h3", ["h3/connection.py::validate_header_name", "h3/connection.py::validate_header_value"], 3000, 100000),
+    ("native-xcheck-h3", ["h3/connection.py::validate_header_name", "h3/connection.py::validate_header_value", "h3/connection.py::validate_request_headers", "h3/connection.py::validate_response_headers", "h3/connection.py::validate_trailers", "h3/connection.py::validate_push_promise_headers"], 3000, 100000),
     ("native-xcheck-varint", ["buffer.py::size_uint_var"], 3000, 100000),
     ("native-xcheck-pn", ["quic/packet.py::decode_packet_number"], 5000, 300000),
 ):
